@@ -4,6 +4,13 @@ import FimVerif.Proofs.Lemmas.StoreDisjoint
 namespace FimVerif.Store
 open FimVerif FimVerif.Gen.StoreConsts
 
+theorem ref_assertVal (g : String) (v : Val) (s : Store) (r : R) (r' : AGraph.AR) (h : Ref g r r') :
+    Ref g (assertVal v s r) (AGraph.assertVal v (abs s g) r') := by
+  unfold assertVal AGraph.assertVal
+  split
+  · exact ref_err g s _
+  · exact h
+
 /-- one step of the shared store is one step of the reference model on the addressed graph -/
 theorem refines_step (op : Op) (s : Store) (h : Inv s) (hc : AGraph.covers op = true) (hk : op.keepsKeys = true) :
     Ref op.target (step op s) (AGraph.step op (abs s op.other) (abs s op.target)) := by
@@ -19,15 +26,15 @@ theorem refines_step (op : Op) (s : Store) (h : Inv s) (hc : AGraph.covers op = 
   | addLink g a rel b props => exact ref_addLink s h g a rel b props
   | updateNodeProperty g nid k v =>
     simp only [Op.keepsKeys, Bool.and_eq_true, bne_iff_ne, ne_eq] at hk
-    exact ref_updateNodeProperty s h g nid k v hk.1 hk.2
+    exact ref_assertVal g v s _ _ (ref_updateNodeProperty s h g nid k v hk.1 hk.2)
   | unsetNodeProperty g nid k => exact ref_unsetNodeProperty s h g nid k
   | updateNodesProperty g k v =>
     simp only [Op.keepsKeys, Bool.and_eq_true, bne_iff_ne, ne_eq] at hk
-    exact ref_updateNodesProperty s g k v hk.1 hk.2
+    exact ref_assertVal g v s _ _ (ref_updateNodesProperty s g k v hk.1 hk.2)
   | updateNodeProperties g nid props =>
     simp only [Op.keepsKeys, Bool.and_eq_true, Bool.not_eq_true'] at hk
     exact ref_updateNodeProperties s h g nid props (AMap.not_mem_keys_of_has_false _ _ hk.1) (AMap.not_mem_keys_of_has_false _ _ hk.2)
-  | updateLinkProperty g a b kind k v => exact ref_updateLinkProperty s h g a b kind k v
+  | updateLinkProperty g a b kind k v => exact ref_assertVal g v s _ _ (ref_updateLinkProperty s h g a b kind k v)
   | unsetLinkProperty g a b kind k => exact ref_unsetLinkProperty s h g a b kind k
   | updateLinkProperties g a b kind props => exact ref_updateLinkProperties s h g a b kind props
   | deleteGraph g => exact ref_deleteGraph s g
